@@ -66,9 +66,9 @@ CLAIMED = {
    design="§7 C04"),
  "C02": dict(
    engine="json",
-   text="Lean model of the documented NDJSON mapping (toJ/fromJ, union tagging rule, omitted nullable fields, enum/flag symbols, maps, arrays). Kernel-checked so far: the JSON data type of every primitive's mapping is among the types GetJsonDataType announces, and the model's table of those types equals what the current source computes (regenerated by executing it). The full statement fromJ (toJ v) = v is evaluated by the Lean driver on every generated value (reported as a violation if false) but not yet proved for all values - this check is partial. Tied to generated C++ and Python by a writer leg (every NDJSON line written must denote the value toJ prescribes) and a reader leg (NDJSON rendered from toJ is read back to the same values), with stream items alternating optional presence.",
-   note="PARTIAL: the unbounded round-trip theorem is not proved yet (see DESIGN.md); decimal<->float conversion is delegated to CPython (floats are bit patterns in the model); C++ NDJSON legs exclude date/time/datetime (date.h stand-in).",
-   technique="Lean 4 model + kernel-checked table theorems; differential correspondence through generated C++/Python (partial proof)",
+   text="Lean model of the documented NDJSON mapping (toJ/fromJ, union tagging rule, omitted nullable fields, enum symbols, maps, arrays). Kernel-checked: fromJ (toJ v) = v for every well-formed type and typed value - primitives, enums, records (nullable fields holding null are omitted and read back as null; fields found by name), optionals, tagged and untagged unions, vectors, arrays of all kinds, maps with string and non-string keys, any nesting depth (mutual structural induction); the reader of an untagged union picks exactly the written case; the JSON data type of every mapped value is among those GetJsonDataType announces; the model's table of those types equals what the current source computes (regenerated by executing it). Hypotheses: distinct field names / tags / enum symbols, no optional of a nullable type (the collapse is proved as nested_optional_collapses), date formatter and parser inverse, no !flags (their greedy decomposition is evaluated by the driver on every generated value). Tied to generated C++ and Python by a writer leg (every NDJSON line written must denote the value toJ prescribes) and a reader leg (NDJSON rendered from toJ is read back to the same values), with stream items alternating optional presence; the driver evaluates the theorem's hypothesis WF on every generated protocol.",
+   note="Not proved: !flags values (evaluated). Decimal<->float conversion is delegated to CPython (floats are bit patterns in the model); C++ NDJSON legs exclude date/time/datetime (date.h stand-in). Seven defects fixed.",
+   technique="Lean 4 proof (mutual structural induction, JSON round trip) + differential correspondence through generated C++/Python",
    design="§7 C02"),
  "C03": dict(
    engine="wire",
